@@ -2,6 +2,7 @@ package main
 
 import (
 	"bufio"
+	"bytes"
 	"encoding/hex"
 	"encoding/json"
 	"os"
@@ -26,7 +27,9 @@ func replayFile(e *emitter, path string) {
 	sc.Buffer(make([]byte, 1<<20), 1<<26)
 	for sc.Scan() {
 		var c map[string]any
-		if json.Unmarshal(sc.Bytes(), &c) != nil {
+		dec := json.NewDecoder(bytes.NewReader(sc.Bytes()))
+		dec.UseNumber()
+		if dec.Decode(&c) != nil {
 			continue
 		}
 		k, _ := c["k"].(string)
@@ -34,4 +37,16 @@ func replayFile(e *emitter, path string) {
 			r(e, c)
 		}
 	}
+}
+
+// num reads an integer from a decoded JSON value (json.Number or float64)
+func num(v any) (int64, bool) {
+	switch x := v.(type) {
+	case json.Number:
+		i, err := x.Int64()
+		return i, err == nil
+	case float64:
+		return int64(x), true
+	}
+	return 0, false
 }
